@@ -311,6 +311,22 @@ func installReflectMaps(e *Engine) {
 
 func installReflect(e *Engine) {
 	installReflectMaps(e)
+	e.intercept["encoding/json.Marshal"] = func(e *Engine, fr *Frame, c *Ctx, a []Value, _ *ssa.CallCommon) (Value, bool) {
+		if !e.feasible(c.S.PC) {
+			return nil, false // dead path (e.g. an impossible alternative of a dynamic type)
+		}
+		iv := a[0].(IfaceV)
+		var ts []string
+		for _, al := range iv.Alts {
+			if al.Typ != nil {
+				ts = append(ts, al.Typ.String())
+			} else {
+				ts = append(ts, "nil")
+			}
+		}
+		unsup("encoding/json.Marshal is not modelled (called from %s with a value of type %s)", fr.Fn.String(), strings.Join(ts, " | "))
+		return nil, false
+	}
 	jp := "github.com/go-openapi/jsonpointer."
 	e.intercept[jp+"getSingleImpl"] = func(e *Engine, fr *Frame, c *Ctx, a []Value, _ *ssa.CallCommon) (Value, bool) {
 		v := e.getSingle(fr, c, a[0].(IfaceV), a[1].(StrV))
